@@ -2,7 +2,8 @@
 # Runs every seeded change under /verif/seeded against its check (quick tier) and records detection.json next to it.
 cd /verif
 for d in seeded/*/; do
-  id=$(basename $d)
+  id=$(basename $d | cut -d- -f1)
+  [ -n "${ONLY:-}" ] && [[ "$(basename $d)" != *"$ONLY" ]] && continue
   out=$(tools/selftest.sh $id /verif/$d/patch.diff quick 2>&1)
   verdict=$(echo "$out" | head -1 | cut -d' ' -f1)
   clauses=$(echo "$out" | grep -o 'clause=[A-Za-z0-9._-]*' | sort -u | tr '\n' ' ')
